@@ -494,6 +494,7 @@ def r_grid(ctx, a):
             _cmp_padded(ctx, '%s (%s)' % (name, tag), r1, r0, float(np.abs(r0).max()) * 4 + 1, pad_zero=(name != 'cos_lat_d_dlat'))
     M1 = g1.modal_shape[0]
     for (idx, col), (_, dcol) in zip(util.columns(x1, 1), util.columns(d1, 1)):
+        if a.get('no_model'): break          # oracle-only use from the C01 / C09 plugins (their model has no such command)
         if idx[1] < 2:     # two columns per level are enough (each costs a model call)
             ctx.corr('Grid.d_dlon on mesh vs model', dcol, ctx.model.call(6, [M1, a['mesh'][1]], [col]), scale=float(np.abs(x0).max() * M1) + 1)
     for name in ('cos_lat_d_dlat', 'laplacian', 'inverse_laplacian', 'clip_wavenumbers'):
